@@ -268,18 +268,26 @@ def value (c : PCfg) : Nat → PM Val
       | .stop => pure v
       | e => throw e)
 
-/-- `_parse_set_seq`; `none` = the `for` loop ran out of tokens and the function returned `None`. -/
-def setSeq (c : PCfg) (delims : Nat × Nat) : Nat → PM (Option (List Val))
+/-- `_parse_set_seq`: running out of tokens anywhere after the opening delimiter is a
+    `ParseError` (without a token). -/
+def setSeq (c : PCfg) (delims : Nat × Nat) : Nat → PM (List Val)
   | 0 => throw .fuel
   | fuel + 1 => do
     let t ← next
     if t.text != [delims.1] then
       send t
       throw .value
-    if (← wscUntil c (some [delims.2]) fuel) then return some []
-    let v ← value c fuel
-    if (← wscUntil c (some [delims.2]) fuel) then return some [v]
-    setSeqLoop c delims [v] fuel
+    let body : PM (Option (List Val)) := do
+      if (← wscUntil c (some [delims.2]) fuel) then return some []
+      let v ← value c fuel
+      if (← wscUntil c (some [delims.2]) fuel) then return some [v]
+      setSeqLoop c delims [v] fuel
+    let r ← tryCatch body (fun e => match e with
+      | .stop => pure none
+      | e => throw e)
+    match r with
+    | some l => pure l
+    | none => throw (.parse none)
 
 def setSeqLoop (c : PCfg) (delims : Nat × Nat) (acc : List Val) : Nat → PM (Option (List Val))
   | 0 => throw .fuel
@@ -303,18 +311,15 @@ def setSeqLoop (c : PCfg) (delims : Nat × Nat) (acc : List Val) : Nat → PM (O
 def pset (c : PCfg) : Nat → PM Val
   | 0 => throw .fuel
   | fuel + 1 => do
-    match (← setSeq c c.g.setDelims fuel) with
-    | none => throw .type                      -- frozenset(None) / set(None)
-    | some l =>
-      if l.all hashable then pure (.set (c.kind != .odl) l) else throw .type
+    let l ← setSeq c c.g.setDelims fuel
+    if l.all hashable then pure (.set (c.kind != .odl) l) else throwIn
 
 /-- `parse_sequence` -/
 def pseq (c : PCfg) : Nat → PM Val
   | 0 => throw .fuel
   | fuel + 1 => do
-    match (← setSeq c c.g.seqDelims fuel) with
-    | none => pure .none                       -- the function's `None` becomes the value
-    | some l => pure (.seq l)
+    let l ← setSeq c c.g.seqDelims fuel
+    pure (.seq l)
 
 end
 
@@ -368,7 +373,9 @@ def beginAgg (c : PCfg) (fuel : Nat) : PM (Str × Str) := do
     send b
     throw .value
   tryCatch (aroundEquals c fuel) (fun e => if e.isValueError then throwIn else throw e)
-  let name ← next
+  let name ← tryCatch next (fun e => match e with
+    | .stop => throw (.parse none)
+    | e => throw e)
   let isName ← liftD (Tok.isParameterName c.d name.text)
   if !isName then throwIn
   let _ ← stmtDelim c fuel
@@ -439,11 +446,12 @@ def moduleHook (c : PCfg) (m : Items) (fuel : Nat) : PM (Items × Except PErr Bo
               pure (m1 ++ [(lastTok, ev2)], .ok false)
             | .error e => pure (m1, .error e)
           | .ok false =>
+            -- `tokens.send(t); raise Exception` ("ignore me")
             let r ← tryCatch (do send t; pure (Except.ok ())) (fun e => pure (Except.error e))
             match r with
             | .error .stop => pure (m, .ok false)
             | .error e => pure (m, .error e)
-            | .ok _ => peek m
+            | .ok _ => pure (m, .error .exc)
       else do
         let r ← tryCatch (do send t; pure (Except.ok ())) (fun e => pure (Except.error e))
         match r with
@@ -484,13 +492,16 @@ def aggLoop (c : PCfg) (begin name : Str) (agg : Items) : Nat → PM Items
       match r2 with
       | some p => aggLoop c begin name (agg ++ [p]) fuel
       | none =>
-        let r3 ← softCatch (do endAgg c begin name fuel; pure true) (pure false)
+        let r3 ← softCatch (tryCatch (do endAgg c begin name fuel; pure true) (fun e => match e with
+            | .stop => throw (.parse none)
+            | e => throw e)) (pure false)
         if r3 then pure agg
         else do
           let (agg', out) ← moduleHook c agg fuel
           match out with
           | .ok true => aggLoop c begin name agg' fuel
           | .error .fuel => throw .fuel
+          | .error (.lexer p) => throw (.lexer p)
           | _ => throw .value          -- `raise ve`
 end
 
@@ -517,6 +528,7 @@ def moduleLoop (c : PCfg) (m : Items) : Nat → PM Items
     | .ok true => moduleLoop c m3 fuel
     | .ok false => pure m3
     | .error .fuel => throw .fuel
+    | .error (.lexer p) => throw (.lexer p)
     | .error _ =>
       if p1 || p2 then moduleLoop c m3 fuel
       else do
